@@ -41,6 +41,16 @@ def load_mutants():
                 for prop in md.get("detected_by", []):
                     out.append({"id": "seeded/" + d, "property": prop, "kind": "break", "patch": patch,
                                 "expect": md.get("expect", {}).get(prop, ""), "why": md.get("summary", "")})
+    rd = os.path.join(VERIF, "refactors")
+    if os.path.isdir(rd):
+        for d in sorted(os.listdir(rd)):
+            meta = os.path.join(rd, d, "meta.json")
+            patch = os.path.join(rd, d, "patch.diff")
+            if os.path.exists(meta) and os.path.exists(patch):
+                md = json.load(open(meta))
+                for prop in md.get("audit_for", []):
+                    out.append({"id": "refactors/" + d, "property": prop, "kind": "refactor", "patch": patch,
+                                "why": md.get("summary", "behaviour-preserving refactoring by an independent sub-agent")})
     return out
 
 
